@@ -4,6 +4,7 @@ import (
 	"errors"
 	"fmt"
 	"io"
+	"math/rand/v2"
 	"strconv"
 	"sync"
 
@@ -289,6 +290,49 @@ type client struct {
 	seg  *cliSeg // segment the client currently uses (nil = none)
 	st   *shmStats
 	leak []string // slot-accounting problems found after calls
+
+	// hold mode: result pointers are kept and released later, in random order
+	hold      int
+	held      []heldPtr
+	heldVals  map[string]string // placeholder -> resolved values (filled at release)
+	heldN     int
+	holdNotes []string
+	rng       *rand.Rand
+}
+
+type heldPtr struct {
+	seg   *cliSeg
+	ptr   arrow.RecordBatch
+	off   uint64
+	token string
+}
+
+func (c *client) isHeld(s *cliSeg, off uint64) bool {
+	for _, h := range c.held {
+		if h.seg == s && h.off == off {
+			return true
+		}
+	}
+	return false
+}
+
+// releaseHeld resolves held pointer i NOW (the bytes the client would hand to
+// its consumer at this moment), records the values and releases the slot.
+func (c *client) releaseHeld(i int, res *sessionResult) {
+	h := c.held[i]
+	c.held = append(c.held[:i], c.held[i+1:]...)
+	got, off, err := h.seg.resolve(h.ptr)
+	if err != nil {
+		c.heldVals[h.token] = "held-pointer-unresolvable: " + err.Error()
+		c.holdNotes = append(c.holdNotes, "held pointer no longer resolvable: "+err.Error())
+	} else {
+		c.heldVals[h.token] = gen.CanonValues(got)
+		got.Release()
+		if !h.seg.free(off) {
+			c.holdNotes = append(c.holdNotes, fmt.Sprintf("held pointer offset %d could not be freed", off))
+		}
+	}
+	h.ptr.Release()
 }
 
 // observe turns one received batch into an observation, resolving pointers
@@ -308,6 +352,18 @@ func (c *client) observe(b arrow.RecordBatch, call *obsCall) obsBatch {
 			return obsBatch{Kind: "pointer-unresolvable", Meta: gen.CanonMeta(gen.MetaOf(b), nil)}
 		}
 		c.seg.sweep()
+		if c.hold > 0 && kind == "data" {
+			if off, perr := strconv.ParseUint(md[vgirpc.MetaShmOffset], 10, 64); perr == nil {
+				c.heldN++
+				tok := fmt.Sprintf("held#%d", c.heldN)
+				b.Retain()
+				c.held = append(c.held, heldPtr{seg: c.seg, ptr: b, off: off, token: tok})
+				for len(c.held) > c.hold {
+					c.releaseHeld(c.rng.IntN(len(c.held)), nil)
+				}
+				return obsBatch{Kind: kind, Values: tok, Meta: gen.CanonMeta(gen.MetaOf(b), dropPtr), ViaShm: true}
+			}
+		}
 		res, off, err := c.seg.resolve(b)
 		if err != nil {
 			call.Notes = append(call.Notes, "pointer not resolvable: "+err.Error())
